@@ -333,8 +333,10 @@ REG["C15"] = {
     "thorough_extra": ["replay", "e2e"],
     "quick_extra": ["replay", "e2e"],
     "scope": "PARTIAL (small) — which exit code is the skip code: TestCaseConfig::get_skip_document_code returns the configured skip_document_code, else 80; the Markdown and the Cram "
-             "format defaults both set 80.",
-    "assumptions": ["derived Default of TestCaseConfig (R39 shim)"],
+             "format defaults both set 80; and the two call sites that pick the code an exit status is compared with (the `let skip_document_code = ..` expressions of "
+             "StatefulExecutor::execute_all and BashScriptExecutor::execute_all, extracted verbatim as @expr): it is the skip code of the test case that just ran / of the compiled script, "
+             "by its own configuration.",
+    "assumptions": ["derived Default of TestCaseConfig (R39 shim)", "TestCaseShim: field-access shim for TestCase.config (the one field the two extracted expressions read)"],
     "not_decided": ["that a document with such an exit code is reported as skipped as a whole, and nothing else is (executors: interleaved with process spawning; reporting: src/bin/commands/test.rs): "
                     "BOUNDED stand-in for the executors only — verif-replay c15 N runs real bash processes: every sequence of up to N test cases with exit codes from {0, 1, 80, 81}, skip code unset "
                     "or configured 81, through StatefulExecutor + BashRunner and through BashScriptExecutor, must give ExecutionError::Skipped(index of the first test case that exits with its skip "
